@@ -410,42 +410,74 @@ func c54(c *Ctx) {
 	}
 	c.Check(capOK, "guard-before", connect+": request buffer allocated with capacity >= 6", fn.Pos(), "", "no dominating make([]byte, 0, 6+len(host)) with constant part >= 6")
 	// b[:l] under cap(b) >= l, otherwise make([]byte, l)
+	// re-slicing the reply buffer up to a computed length happens only under cap(b) >= l, and the other
+	// branch allocates l bytes (either polarity of the test, any statement order)
 	regrow := false
-	for _, b := range fn.Blocks {
-		n := len(b.Instrs)
-		if n == 0 {
-			continue
+	regrowWhy := "no b[:l] re-slice with a computed l found"
+	eachInstrOf(fn, func(in ssa.Instruction) {
+		sl, ok := in.(*ssa.Slice)
+		if !ok || sl.Low != nil || sl.High == nil {
+			return
 		}
-		ifi, ok := b.Instrs[n-1].(*ssa.If)
-		if !ok {
-			continue
+		if _, isConst := sl.High.(*ssa.Const); isConst {
+			return
 		}
-		bo, ok := ifi.Cond.(*ssa.BinOp)
-		if !ok || bo.Op != token.LSS {
-			continue
+		if _, isSlice := sl.X.Type().Underlying().(*types.Slice); !isSlice {
+			return
 		}
-		cp, ok := bo.X.(*ssa.Call)
-		if !ok || CalleeName(&cp.Call) != "builtin:cap" {
-			continue
+		if k, ok := lenMinus(sl.High, sl.X); ok && k <= 0 {
+			return // b[:len(b)-k] never exceeds the length
 		}
-		// false edge: slice of the same buffer up to the same l; true edge: make(l)
-		var slOK, mkOK bool
-		for _, in := range b.Succs[1].Instrs {
-			if sl, ok := in.(*ssa.Slice); ok && sl.X == cp.Call.Args[0] && sl.High == bo.Y && sl.Low == nil {
-				slOK = true
+		// a dominating branch compares cap(<this buffer>) with <this length>, taken on the side where cap >= l
+		guarded := false
+		isCap := func(v ssa.Value) bool {
+			cl, ok := StripConv(v).(*ssa.Call)
+			return ok && CalleeName(&cl.Call) == "builtin:cap" && cl.Call.Args[0] == sl.X
+		}
+		for d := sl.Block().Idom(); d != nil; d = d.Idom() {
+			ifi, ok := d.Instrs[len(d.Instrs)-1].(*ssa.If)
+			if !ok {
+				continue
+			}
+			bo, ok := ifi.Cond.(*ssa.BinOp)
+			if !ok {
+				continue
+			}
+			var capGE bool // does cond==true mean cap >= high ?
+			switch {
+			case isCap(bo.X) && StripConv(bo.Y) == StripConv(sl.High) && (bo.Op == token.GEQ):
+				capGE = true
+			case isCap(bo.X) && StripConv(bo.Y) == StripConv(sl.High) && (bo.Op == token.LSS):
+				capGE = false
+			case isCap(bo.Y) && StripConv(bo.X) == StripConv(sl.High) && (bo.Op == token.LEQ):
+				capGE = true
+			case isCap(bo.Y) && StripConv(bo.X) == StripConv(sl.High) && (bo.Op == token.GTR):
+				capGE = false
+			default:
+				continue
+			}
+			side := 0
+			if !capGE {
+				side = 1
+			}
+			if len(d.Succs[side].Preds) == 1 && d.Succs[side].Dominates(sl.Block()) {
+				guarded = true
 			}
 		}
-		for _, in := range b.Succs[0].Instrs {
-			if mk, ok := in.(*ssa.MakeSlice); ok && mk.Len == bo.Y {
-				mkOK = true
+		made := false
+		eachInstrOf(fn, func(in2 ssa.Instruction) {
+			if mk, ok := in2.(*ssa.MakeSlice); ok && Term(mk.Len) == Term(sl.High) {
+				made = true
 			}
-		}
-		// and no other slicing of that buffer to l elsewhere
-		if slOK && mkOK && len(b.Succs[1].Preds) == 1 {
+		})
+		if guarded && made {
 			regrow = true
+		} else {
+			regrowWhy = fmt.Sprintf("`%s` is not under cap >= %s with a make of that length on the other branch", Term(sl), Term(sl.High))
+			regrow = false
 		}
-	}
-	c.Check(regrow, "guard-before", connect+": [b[:l]] under cap(b) >= l, else make([]byte, l)", fn.Pos(), "", "no `if cap(b) < l { b = make([]byte, l) } else { b = b[:l] }` shape")
+	})
+	c.Check(regrow, "guard-before", connect+": [b[:l]] under cap(b) >= l, else make([]byte, l)", fn.Pos(), "", regrowWhy)
 
 	// ---- the API hands the destination to connect and the bound address back ----
 	const D = "(*internal/socks.Dialer)."
@@ -466,16 +498,28 @@ func c54(c *Ctx) {
 
 // lenMinus recognises len(buf)-k and returns -k.
 func lenMinus(idx, buf ssa.Value) (int64, bool) {
-	bo, ok := StripConv(idx).(*ssa.BinOp)
-	if !ok || bo.Op != token.SUB {
-		return 0, false
+	// idx == len(buf) + k, by SSA identity of buf (robust to hoisting len(b)-2 into a local and to b[off+1])
+	switch x := StripConv(idx).(type) {
+	case *ssa.Call:
+		if CalleeName(&x.Call) == "builtin:len" && x.Call.Args[0] == buf {
+			return 0, true
+		}
+	case *ssa.BinOp:
+		if k, isC := ConstInt64(x.Y); isC && (x.Op == token.ADD || x.Op == token.SUB) {
+			if b, ok := lenMinus(x.X, buf); ok {
+				if x.Op == token.SUB {
+					return b - k, true
+				}
+				return b + k, true
+			}
+		}
+		if k, isC := ConstInt64(x.X); isC && x.Op == token.ADD {
+			if b, ok := lenMinus(x.Y, buf); ok {
+				return b + k, true
+			}
+		}
 	}
-	cl, ok := StripConv(bo.X).(*ssa.Call)
-	if !ok || CalleeName(&cl.Call) != "builtin:len" || cl.Call.Args[0] != buf {
-		return 0, false
-	}
-	k, ok := ConstInt64(bo.Y)
-	return -k, ok
+	return 0, false
 }
 
 func mustInt(s string) int64 {
@@ -489,4 +533,12 @@ func reqWriteBlock(in ssa.Instruction) *ssa.BasicBlock {
 		return nil
 	}
 	return in.Block()
+}
+
+func eachInstrOf(fn *ssa.Function, f func(ssa.Instruction)) {
+	for _, b := range fn.Blocks {
+		for _, in := range b.Instrs {
+			f(in)
+		}
+	}
 }
